@@ -4,6 +4,7 @@ import (
 	"fmt"
 	"go/token"
 	"go/types"
+	"sort"
 	"strings"
 
 	"golang.org/x/tools/go/ssa"
@@ -177,6 +178,7 @@ func checkC19(c *Ctx, r *Report) {
 	r.rule("C19.R1", "the answer is correlated with the request before it is returned to the charging operation", 2)
 	r.rule("C19.R2", "the Diameter answer handler cannot block for ever on the hand-over channel", 2)
 	r.rule("C19.R4", "the connection of a request that gives up is closed on every path (an abandoned request's answer cannot be delivered later; shared with C18.R1)", 2)
+	r.rule("C19.R5", "each client waits on, and empties before it sends, the very channel its own answer handler delivers into", 6)
 	r.rule("C19.R3", "the per-subscriber answer channel has one kind of receiver: the client function that sent the request", 2)
 
 	for _, a := range [][3]string{
@@ -248,6 +250,7 @@ func checkC19(c *Ctx, r *Report) {
 	}
 
 	c19SingleConsumer(c, r, "C19.R3")
+	c19OwnChannel(c, r, "C19.R5")
 
 	// R4: as long as answers are not correlated (R1), what keeps the answer of a
 	// timed-out request away from the subscriber's next request is that the
@@ -534,5 +537,130 @@ func c18WatchdogOutlivesRequest(c *Ctx, r *Report, rule string) {
 	}
 	if n == 0 {
 		r.viol(rule, "clients", "", "no sm.Client literal found")
+	}
+}
+
+// c19OwnChannel: rating and account-balance legs each have a per-subscriber
+// channel of the same type.  The answer handler of a leg is built for one of
+// them (HandleSUA(ue.RatingChan), HandleCCA(ue.AcctChan)); the client of that
+// leg must receive from that channel only, and - as long as answers are not
+// correlated (R1) - empty it with a non-blocking receive before the request is
+// written, so that an answer parked after an earlier time-out is not taken as
+// the answer of this request.
+func c19OwnChannel(c *Ctx, r *Report, rule string) {
+	pairs := []struct{ pkg, client, ctor string }{
+		{"internal/abmf", "SendAccountDebitRequest", "HandleCCA"},
+		{"internal/rating", "SendServiceUsageRequest", "HandleSUA"},
+	}
+	ueField := func(v ssa.Value) (string, bool) {
+		v = stripConv(v)
+		ld, ok := v.(*ssa.UnOp)
+		if !ok || ld.Op != token.MUL {
+			return "", false
+		}
+		fa, ok := ld.X.(*ssa.FieldAddr)
+		if !ok || !typeIs(fa.X.Type(), ctxPath, "ChfUe") {
+			return "", false
+		}
+		return fieldName(fa), true
+	}
+	for _, p := range pairs {
+		client, ctor := c.fn(p.pkg, p.client), c.fn(p.pkg, p.ctor)
+		key := fnKey(client)
+		// the channel the handler delivers into
+		handler := map[string]string{}
+		for _, f := range c.ModFuncs {
+			eachInstr(f, func(_ *ssa.BasicBlock, _ int, ins ssa.Instruction) {
+				ci, ok := ins.(ssa.CallInstruction)
+				if !ok || ci.Common().StaticCallee() != ctor || len(ci.Common().Args) == 0 {
+					return
+				}
+				if fld, ok := ueField(ci.Common().Args[0]); ok {
+					handler[fld] = posOf(c, ins)
+				} else {
+					handler["?"+describe(ci.Common().Args[0])] = posOf(c, ins)
+				}
+			})
+		}
+		if len(handler) != 1 {
+			var names []string
+			for k := range handler {
+				names = append(names, k)
+			}
+			sort.Strings(names)
+			r.viol(rule, key+"|handler channel", c.rel(client.Pos()), fmt.Sprintf("the answer handler %s is built for %d channels (%s): cannot tell which one the client must wait on", p.ctor, len(handler), strings.Join(names, ", ")))
+			continue
+		}
+		var hf string
+		for k := range handler {
+			hf = k
+		}
+		if strings.HasPrefix(hf, "?") {
+			r.viol(rule, key+"|handler channel", c.rel(client.Pos()), "the answer handler is built for "+hf[1:]+", not a channel member of the subscriber")
+			continue
+		}
+		r.proven(rule, key+"|handler channel", handler[hf], p.ctor+" delivers into ChfUe."+hf)
+		// receives of the client
+		var write ssa.Instruction
+		type recv struct {
+			ins      ssa.Instruction
+			field    string
+			nonblock bool
+		}
+		var recvs []recv
+		eachInstr(client, func(_ *ssa.BasicBlock, _ int, ins ssa.Instruction) {
+			switch x := ins.(type) {
+			case *ssa.UnOp:
+				if x.Op == token.ARROW {
+					if fld, ok := ueField(x.X); ok {
+						recvs = append(recvs, recv{ins, fld, false})
+					}
+				}
+			case *ssa.Select:
+				for _, stt := range x.States {
+					if stt.Dir != types.RecvOnly {
+						continue
+					}
+					if fld, ok := ueField(stt.Chan); ok {
+						recvs = append(recvs, recv{ins, fld, !x.Blocking})
+					}
+				}
+			case *ssa.Call:
+				if _, ok := callIs(ins, diamPath, "Message.WriteTo"); ok && write == nil {
+					write = ins
+				}
+			}
+		})
+		wrong := ""
+		nOwn := 0
+		for _, rc := range recvs {
+			if rc.field != hf {
+				wrong += fmt.Sprintf("receives from ChfUe.%s at %s; ", rc.field, posOf(c, rc.ins))
+			} else {
+				nOwn++
+			}
+		}
+		r.check(wrong == "" && nOwn > 0, rule, key+"|receives", c.rel(client.Pos()), fmt.Sprintf("all %d receives of the client are from ChfUe.%s", nOwn, hf),
+			fmt.Sprintf("%s %sbut its answer handler delivers into ChfUe.%s: the other leg's channel is touched (its pending answer is lost or taken as this leg's answer) and this leg's own channel is not", shortFn(client), wrong, hf))
+		// the flush before the request is written
+		if write == nil {
+			r.viol(rule, key+"|flush", c.rel(client.Pos()), "cannot find the call that writes the request (Message.WriteTo)")
+			continue
+		}
+		flushed := false
+		for _, rc := range recvs {
+			if rc.field == hf && rc.nonblock && instrDominates(rc.ins, write) {
+				flushed = true
+			}
+		}
+		correlated := r.statusOf("C19.R1", key) == stProven
+		switch {
+		case flushed:
+			r.proven(rule, key+"|flush", posOf(c, write), "a non-blocking receive from ChfUe."+hf+" dominates the write of the request: an answer parked after an earlier time-out is discarded")
+		case correlated:
+			r.proven(rule, key+"|flush", posOf(c, write), "no flush, but answers are correlated with the request (C19.R1)")
+		default:
+			r.viol(rule, key+"|flush", posOf(c, write), "the request is written without first emptying ChfUe."+hf+" (no non-blocking receive from it dominates the write) and answers are not correlated (C19.R1): an answer that the handler parked in the channel after an earlier request timed out is taken as the answer of this request")
+		}
 	}
 }
